@@ -319,12 +319,15 @@ func e4CondWaits(p *Prog, r *Report, rule string) {
 						continue
 					}
 					if succ == in.Block() || succ.Dominates(in.Block()) {
-						if fld, ok := falsifiedBy(iff.Cond, k == 0, facts[ck]); ok {
-							ends = append(ends, NormAtom(iff.Cond, k == 0)+" (closer sets "+fld+")")
-							if usedFacts[ck] == nil {
-								usedFacts[ck] = map[string]bool{}
+						at := Atom{Cond: iff.Cond, Pol: k == 0}
+						for _, part := range append([]Atom{at}, shortCircuitParts(at)...) {
+							if fld, ok := falsifiedBy(part.Cond, part.Pol, facts[ck]); ok {
+								ends = append(ends, NormAtom(part.Cond, part.Pol)+" (closer sets "+fld+")")
+								if usedFacts[ck] == nil {
+									usedFacts[ck] = map[string]bool{}
+								}
+								usedFacts[ck][fld] = true
 							}
-							usedFacts[ck][fld] = true
 						}
 					}
 				}
